@@ -372,3 +372,72 @@ pub broadcast proof fn axiom_arp_string(q: String)
         #[trigger] arp::<String>(q) == path_of_chars(q@),
 {
 }
+
+/// result of canonicalize (absolute, symlink-free form of an existing path)
+pub uninterp spec fn canon(p: PathV) -> PathV;
+/// the parent directory of the target exists and is writable, i.e. creating/resolving can succeed
+pub uninterp spec fn resolvable(p: PathV) -> bool;
+
+pub assume_specification[ std::path::Path::canonicalize ](p: &std::path::Path) -> (r: std::io::Result<std::path::PathBuf>)
+    ensures
+        r is Ok ==> pbv(&r->Ok_0) == canon(pv(p)) && fs_exists(pv(p)),
+        (os_ok() && fs_exists(pv(p))) ==> r is Ok,
+;
+
+pub assume_specification[ std::path::Path::is_absolute ](p: &std::path::Path) -> (r: bool)
+    ensures
+        r == path_is_absolute(pv(p)),
+;
+pub uninterp spec fn path_is_absolute(p: PathV) -> bool;
+
+/// Path::join with an absolute argument is that argument
+#[verifier::external_body]
+pub broadcast proof fn axiom_join_absolute(base: PathV, ext: PathV)
+    ensures
+        path_is_absolute(ext) ==> #[trigger] join_v(base, ext) == ext,
+{
+}
+
+pub assume_specification[ std::path::Path::parent ](p: &std::path::Path) -> (r: Option<&std::path::Path>)
+    ensures
+        (r is Some) == (path_parent(pv(p)) is Some),
+        r is Some ==> pv(r->Some_0) == path_parent(pv(p))->Some_0,
+;
+pub uninterp spec fn path_parent(p: PathV) -> Option<PathV>;
+
+#[verifier::external_type_specification]
+#[verifier::external_body]
+pub struct ExReadDir(std::fs::ReadDir);
+
+#[verifier::external_type_specification]
+#[verifier::external_body]
+pub struct ExDirEntry(std::fs::DirEntry);
+
+/// the paths of the entries of directory `d` (A3: each entry once)
+pub uninterp spec fn fs_entries(d: PathV) -> Set<PathV>;
+pub uninterp spec fn rd_dir(r: &std::fs::ReadDir) -> PathV;
+pub uninterp spec fn entry_path(e: &std::fs::DirEntry) -> PathV;
+
+pub assume_specification[ std::path::Path::read_dir ](p: &std::path::Path) -> (r: std::io::Result<std::fs::ReadDir>)
+    ensures
+        r is Ok ==> rd_dir(&r->Ok_0) == pv(p),
+;
+
+pub assume_specification[ std::fs::DirEntry::path ](e: &std::fs::DirEntry) -> (r: std::path::PathBuf)
+    ensures
+        pbv(&r) == entry_path(e),
+;
+
+/// R6(c): iteration over a ReadDir: every entry of the directory exactly once, in an arbitrary order; an entry that
+/// cannot be read is an Err item
+#[verifier::external_body]
+pub fn read_dir_vec(r: std::fs::ReadDir) -> (v: Vec<std::io::Result<std::fs::DirEntry>>)
+    ensures
+        forall|i: int| 0 <= i < v@.len() && (#[trigger] v@[i]) is Ok ==> fs_entries(rd_dir(&r)).contains(entry_path(&v@[i]->Ok_0)),
+        forall|i: int, j: int| 0 <= i < j < v@.len() && v@[i] is Ok && v@[j] is Ok ==> entry_path(&v@[i]->Ok_0) != entry_path(&v@[j]->Ok_0),
+        // unless an entry failed to be read, all entries are there
+        (forall|i: int| 0 <= i < v@.len() ==> (#[trigger] v@[i]) is Ok) ==> (forall|p: PathV| fs_entries(rd_dir(&r)).contains(p)
+            ==> exists|i: int| 0 <= i < v@.len() && entry_path(&(#[trigger] v@[i])->Ok_0) == p),
+{
+    r.collect()
+}
